@@ -195,18 +195,17 @@ def _arrays_of(val):
     return None
 
 
-def execute(sc):
-    """Run one scenario (in a forked child).  Returns a JSON-able outcome."""
-    hooks = {"caches": W.find_caches(), "deep_equal": None}
-    from simkit.compare import deep_equal
-
-    hooks["deep_equal"] = deep_equal
+def _reference_side(sc):
+    """Everything that is computed sequentially: the reference on the same layout/knobs, declared shapes, the isolation
+    runs and the eager twin.  Runs in its own forked process so that the simulated execution (in the parent) starts
+    from pristine process state: caches filled by a reference run in the same process -- including module-level
+    caches the simulator does not know about -- would hide cold-path races."""
     violation = None
     notes = []
     w = sc["world"]
     knobs = sc["knobs"]
 
-    # 1. sequential reference: same storage, same knobs, one worker, canonical order
+    # 1. sequential reference: same storage, same knobs, canonical order
     ref_sim = Sim(mode="sequential")
     ref_world, ref = _execute_ops(sc, w, ref_sim, knobs)
     ref_digests = [digest(v) if st == "ok" else None for st, v in ref]
@@ -228,7 +227,6 @@ def execute(sc):
                     break
 
     # 2b. isolation: a per-molecule result must not depend on which other molecules are computed with it.
-    #     The last molecule is computed alone (fresh world, fresh model, sequential) and compared with its row.
     iso_checked = 0
     if violation is None and not generator_defect:
         n_all = sum(w["n_mol"])
@@ -257,72 +255,6 @@ def execute(sc):
                 violation = {"kind": "depends-on-other-tasks", "site": op["op"],
                              "detail": f"{op['op']}: row {j} computed together with the other molecules differs from the same molecule computed alone (max abs diff {d})", "op_index": i}
                 break
-
-    # 3. simulated execution
-    fail_reads = None
-    f8 = sc["fault_class"] == "F8"
-    if f8:
-        # choose the k-th read the operations really perform (counted in the reference execution)
-        tot = [(t, s.reads) for t, s in enumerate(ref_world.stores) if s is not None and s.reads > 0]
-        if tot:
-            t, n = tot[int(sc["f8_pick"] * len(tot)) % len(tot)]
-            k = int(sc["f8_pick"] * 7919) % n
-            fail_reads = {t: [k]}
-        else:
-            f8 = False
-    # PCT change points are drawn over the expected number of trace events (~40 per task, measured)
-    sim = _make_sim(sc["schedule"], hooks, pct_horizon=max(200, 40 * ref_sim.stats["tasks"]))
-    sim_error = None
-    try:
-        sim_world, out = _execute_ops(sc, w, sim, knobs, fail_reads=fail_reads)
-    except (SimDeadlock,) as e:
-        sim_world, out = None, []
-        sim_error = e
-    delivered_f8 = 0
-    if sim_world is not None:
-        delivered_f8 = sum(s.failed for s in sim_world.stores if s is not None)
-    if violation is None and sim_error is not None:
-        violation = {"kind": "deadlock", "site": "scheduler", "detail": str(sim_error)}
-    if violation is None and sim_world is not None and not generator_defect:
-        if sim_world.inputs_changed:
-            violation = {"kind": "inputs-modified", "site": ",".join(sim_world.inputs_changed), "detail": "simulated execution modified its inputs"}
-        if violation is None and sim.dup_mismatch is not None:
-            violation = {"kind": "reexecution-differs", "site": sim.dup_mismatch, "detail": "two executions of one task returned different values"}
-        for i, (st, v) in enumerate(out):
-            if violation is not None:
-                break
-            opname = sc["ops"][i]["op"]
-            if st == "exc":
-                if f8 and v["sim_io"]:
-                    continue  # fail-stop with the injected error in the cause chain: allowed
-                violation = {"kind": "spurious-exception", "site": sim.error_site or opname,
-                             "detail": f"{opname}: {v['type']}: {v['msg'][:200]}", "op_index": i}
-            else:
-                d = digest(v)
-                if d != ref_digests[i]:
-                    arrs_a, arrs_b = _arrays_of(v), _arrays_of(ref[i][1])
-                    diff = None
-                    if arrs_a is not None and arrs_b is not None and len(arrs_a) == len(arrs_b):
-                        diff = max((max_abs_diff(a, b) for a, b in zip(arrs_a, arrs_b)), default=0.0)
-                    violation = {"kind": "schedule-dependent-result", "site": opname,
-                                 "detail": f"{opname}: result differs from the sequential reference (max abs diff {diff})", "op_index": i}
-        # F8: afterwards the same calls on the same objects, without fault, must equal the reference
-        if violation is None and f8 and delivered_f8:
-            import dask
-
-            for s in sim_world.stores:
-                if s is not None:
-                    s.fail_reads = set()
-            retry_sim = Sim(mode="sequential")
-            with W.knobs_ctx(knobs), dask.config.set({"scheduler": retry_sim.get}):
-                for i, op in enumerate(sc["ops"]):
-                    st, v = C.outcome_of(lambda: C.run_op(op, sim_world))
-                    if st == "exc":
-                        violation = {"kind": "poisoned-after-read-error", "site": op["op"], "detail": f"retry raised {v['type']}: {v['msg'][:160]}", "op_index": i}
-                        break
-                    if digest(v) != ref_digests[i]:
-                        violation = {"kind": "poisoned-after-read-error", "site": op["op"], "detail": "retry after a read error differs from the reference", "op_index": i}
-                        break
 
     # 4. eager twin: numpy tomogram, default knobs, sequential
     twin_checked = 0
@@ -353,11 +285,8 @@ def execute(sc):
                 nmol = sum(w["n_mol"])
                 for x, y in zip(a_r, a_t):
                     scale_ = max(float(np.max(np.abs(x))) if x.size else 0.0, float(np.max(np.abs(y))) if y.size else 0.0, 1.0)
-                    if opname == "fsc" or opname.endswith("split") and False:
-                        tol = 1e-3
-                    else:
-                        nterm = max(nmol, int(np.prod(w["box"])) if w["edge"] else nmol)
-                        tol = 16 * EPS32 * nterm * scale_
+                    nterm = max(nmol, int(np.prod(w["box"])) if w["edge"] else nmol)
+                    tol = 16 * EPS32 * nterm * scale_
                     dmax = max_abs_diff(x, y)
                     if dmax > tol:
                         violation = {"kind": "chunking-dependent-result", "site": opname,
@@ -366,6 +295,91 @@ def execute(sc):
                 if violation:
                     break
             # alignment-level outputs derived from re-associated padding are not compared (DESIGN 4.1)
+
+    return {"violation": violation, "notes": notes, "generator_defect": generator_defect, "ref_digests": ref_digests,
+            "ref_status": [st for st, _ in ref], "ref_arrays": [(_arrays_of(v) if st == "ok" else None) for st, v in ref],
+            "reads": [(s_.reads if s_ is not None else 0) for s_ in ref_world.stores], "ref_tasks": ref_sim.stats["tasks"],
+            "iso_checked": iso_checked, "twin_checked": twin_checked}
+
+
+def execute(sc):
+    """Run one scenario (in a forked child).  Returns a JSON-able outcome."""
+    from simkit import runner
+    from simkit.compare import deep_equal
+
+    hooks = {"caches": W.find_caches(), "deep_equal": deep_equal}
+    w = sc["world"]
+    knobs = sc["knobs"]
+    R = runner.call_in_fork(_reference_side, sc)
+    violation, notes, generator_defect = R["violation"], R["notes"], R["generator_defect"]
+    ref_digests = R["ref_digests"]
+    iso_checked, twin_checked = R["iso_checked"], R["twin_checked"]
+
+    # 3. simulated execution (this process has not executed any acryo function yet)
+    fail_reads = None
+    f8 = sc["fault_class"] == "F8"
+    if f8:
+        # choose the k-th read the operations really perform (counted in the reference execution)
+        tot = [(t, n_) for t, n_ in enumerate(R["reads"]) if n_ > 0]
+        if tot:
+            t, n = tot[int(sc["f8_pick"] * len(tot)) % len(tot)]
+            k = int(sc["f8_pick"] * 7919) % n
+            fail_reads = {t: [k]}
+        else:
+            f8 = False
+    # PCT change points are drawn over the expected number of trace events (~40 per task, measured)
+    sim = _make_sim(sc["schedule"], hooks, pct_horizon=max(200, 40 * R["ref_tasks"]))
+    sim_error = None
+    try:
+        sim_world, out = _execute_ops(sc, w, sim, knobs, fail_reads=fail_reads)
+    except (SimDeadlock,) as e:
+        sim_world, out = None, []
+        sim_error = e
+    delivered_f8 = 0
+    if sim_world is not None:
+        delivered_f8 = sum(s.failed for s in sim_world.stores if s is not None)
+    if violation is None and sim_error is not None:
+        violation = {"kind": "deadlock", "site": "scheduler", "detail": str(sim_error)}
+    if violation is None and sim_world is not None and not generator_defect:
+        if sim_world.inputs_changed:
+            violation = {"kind": "inputs-modified", "site": ",".join(sim_world.inputs_changed), "detail": "simulated execution modified its inputs"}
+        if violation is None and sim.dup_mismatch is not None:
+            violation = {"kind": "reexecution-differs", "site": sim.dup_mismatch, "detail": "two executions of one task returned different values"}
+        for i, (st, v) in enumerate(out):
+            if violation is not None:
+                break
+            opname = sc["ops"][i]["op"]
+            if st == "exc":
+                if f8 and v["sim_io"]:
+                    continue  # fail-stop with the injected error in the cause chain: allowed
+                violation = {"kind": "spurious-exception", "site": sim.error_site or opname,
+                             "detail": f"{opname}: {v['type']}: {v['msg'][:200]}", "op_index": i}
+            else:
+                d = digest(v)
+                if d != ref_digests[i]:
+                    arrs_a, arrs_b = _arrays_of(v), R["ref_arrays"][i]
+                    diff = None
+                    if arrs_a is not None and arrs_b is not None and len(arrs_a) == len(arrs_b):
+                        diff = max((max_abs_diff(a, b) for a, b in zip(arrs_a, arrs_b)), default=0.0)
+                    violation = {"kind": "schedule-dependent-result", "site": opname,
+                                 "detail": f"{opname}: result differs from the sequential reference (max abs diff {diff})", "op_index": i}
+        # F8: afterwards the same calls on the same objects, without fault, must equal the reference
+        if violation is None and f8 and delivered_f8:
+            import dask
+
+            for s in sim_world.stores:
+                if s is not None:
+                    s.fail_reads = set()
+            retry_sim = Sim(mode="sequential")
+            with W.knobs_ctx(knobs), dask.config.set({"scheduler": retry_sim.get}):
+                for i, op in enumerate(sc["ops"]):
+                    st, v = C.outcome_of(lambda: C.run_op(op, sim_world))
+                    if st == "exc":
+                        violation = {"kind": "poisoned-after-read-error", "site": op["op"], "detail": f"retry raised {v['type']}: {v['msg'][:160]}", "op_index": i}
+                        break
+                    if digest(v) != ref_digests[i]:
+                        violation = {"kind": "poisoned-after-read-error", "site": op["op"], "detail": "retry after a read error differs from the reference", "op_index": i}
+                        break
 
     st = sim.stats
     nontrivial = st["switches"] > 0 or st["cache_clears"] > 0 or st["dup_exec"] > 0 or delivered_f8 > 0 or st["max_inflight"] > 1
@@ -376,7 +390,7 @@ def execute(sc):
         "generator_defect": generator_defect,
         "stats": dict(st, sites=len(sim.sites), f8_delivered=delivered_f8, twin_ops=twin_checked, iso_ops=iso_checked,
                       storage_reads=sum(s_.reads for s_ in (sim_world.stores if sim_world is not None else []) if s_ is not None),
-                      steps=sim.steps, ref_tasks=ref_sim.stats["tasks"],
+                      steps=sim.steps, ref_tasks=R["ref_tasks"],
                       padded=int(bool(w["edge"])), n_ops=len(sc["ops"])),
         "digests": dict(sim.digests(), result=digest([d for d in ref_digests])),
         "result_digest": digest([digest(v) if s_ == "ok" else v["type"] for s_, v in out]) if out else None,
